@@ -5,7 +5,7 @@
 # On success copies patch + demo into /verif/seeded/<ID>-<n>/ and writes confirm.json there.
 ID="$1"; N="$2"; WT=/tmp/wt/$ID; OUT=/tmp/wt/$ID-out
 cd $WT || exit 2
-git checkout -q -- . ; git clean -fdq -e target
+git reset -q --hard; git clean -fdq -e target
 git checkout -q --detach main || exit 2
 HEAD=$(git rev-parse --short HEAD)
 DEMO=$(ls $OUT/demo$N.* | head -1); EXT="${DEMO##*.}"
@@ -20,14 +20,14 @@ run_demo() {
 }
 # without patch
 run_demo; BASE_DEMO=$?
-if ! git apply --3way $OUT/patch$N.diff 2>/tmp/wt/apply-$ID-$N.err; then git checkout -q -- .; git apply $OUT/patch$N.diff 2>>/tmp/wt/apply-$ID-$N.err || { echo "$ID-$N: PATCH DOES NOT APPLY at $HEAD"; git checkout -q -- .; exit 3; }; fi
+if ! git apply $OUT/patch$N.diff 2>/tmp/wt/apply-$ID-$N.err; then git reset -q --hard; if ! git apply --3way $OUT/patch$N.diff 2>>/tmp/wt/apply-$ID-$N.err || [ -n "$(git diff --name-only --diff-filter=U)" ]; then echo "$ID-$N: PATCH DOES NOT APPLY at $HEAD"; git reset -q --hard; exit 3; fi; fi
 git reset -q
 git diff > /tmp/wt/rebased-$ID-$N.diff
 cargo test --workspace --no-fail-fast --offline >/tmp/wt/suite-$ID-$N.log 2>&1; SUITE=$?
 PASSED=$(grep -E "^test result" /tmp/wt/suite-$ID-$N.log | awk '{s+=$4} END {print s}')
 FAILED=$(grep -E "^test result" /tmp/wt/suite-$ID-$N.log | awk '{s+=$6} END {print s}')
 run_demo; MUT_DEMO=$?
-git checkout -q -- . ; git clean -fdq -e target
+git reset -q --hard; git clean -fdq -e target
 echo "$ID-$N at $HEAD: demo_without_patch_rc=$BASE_DEMO suite_with_patch_rc=$SUITE passed=$PASSED failed=$FAILED demo_with_patch_rc=$MUT_DEMO"
 if [ $BASE_DEMO -eq 0 ] && [ $SUITE -eq 0 ] && [ $MUT_DEMO -ne 0 ]; then
   D=/verif/seeded/$ID-$N; mkdir -p $D
